@@ -230,6 +230,13 @@ impl CharProperty {
         let mut cate_idset = base_cinfo.cate_idset();
         for target in targets {
             let cinfo = lookup(target.as_ref())?;
+            if cinfo.base_id() >= CATE_IDSET_BITS as u32 {
+                let msg = format!(
+                    "Only the first {CATE_IDSET_BITS} categories can be assigned to characters: {}",
+                    target.as_ref()
+                );
+                return Err(VibratoError::invalid_format("char.def", msg));
+            }
             cate_idset |= 1 << cinfo.base_id();
         }
         base_cinfo.reset_cate_idset(cate_idset);
